@@ -39,7 +39,8 @@ func isoName(env *Env, used map[string]bool, long bool) string {
 		case 0, 1, 2, 3, 4:
 			n = fmt.Sprintf("%s%d.%s", []string{"file", "Data", "README", "x-y", "a_b"}[env.Rnd.Intn(5)], env.Rnd.Intn(50), []string{"bin", "TXT", "dat", "p3t"}[env.Rnd.Intn(4)])
 		case 5:
-			n = []string{"EBOOT.BIN", "ICON0.PNG", "USRDIR", "LICDIR", "TROPDIR", "a", "A", "b", "abc", "Abc", "ABC"}[env.Rnd.Intn(11)]
+			n = []string{"EBOOT.BIN", "ICON0.PNG", "USRDIR", "LICDIR", "TROPDIR", "a", "A", "b", "abc", "Abc", "ABC",
+				".version", "..data", ".nomedia", ".config", "...", ".a.b."}[env.Rnd.Intn(17)] // names that begin with a dot are names like any other
 		case 6:
 			n = []string{"a b.txt", "q?.x", "q*.x", "semi;1", "plus+", "tilde~", "x?", "x*", "[z]", "#1", "a@b", "c$d", "e^f", "{g}", "h|i", "j`k", "l\\m"}[env.Rnd.Intn(17)]
 		case 7:
@@ -583,6 +584,14 @@ func runIso(env *Env) error {
 			prefix = "/***PS3***/"
 		}
 		fsys := &pfs.FS{Fs: afero.NewBasePathFs(afero.NewOsFs(), top)}
+		openPath := prefix + rootName
+		// the served root itself as an image: the image root has no name of its own (volume identifier empty)
+		noName := !ps3 && i%13 == 6
+		if noName {
+			fsys = &pfs.FS{Fs: afero.NewBasePathFs(afero.NewOsFs(), filepath.Join(top, rootName))}
+			openPath = "/***DVD***/"
+			env.Count("shape_extra", "served root as image")
+		}
 		open := func() (*pfs.VirtualISO, string, string) {
 			var v *pfs.VirtualISO
 			var panicked string
@@ -593,7 +602,7 @@ func runIso(env *Env) error {
 						panicked = fmt.Sprint(r)
 					}
 				}()
-				f, err := fsys.Open(prefix + rootName)
+				f, err := fsys.Open(openPath)
 				if err != nil {
 					errs = err.Error()
 					return
@@ -606,6 +615,9 @@ func runIso(env *Env) error {
 		volname := rootName
 		if ps3 {
 			volname = "PS3VOLUME"
+		}
+		if noName {
+			volname = ""
 		}
 		fields := []string{sb.String(), hx([]byte(volname)), map[bool]string{false: "0", true: "1"}[ps3], hx([]byte(titleID))}
 		env.Count("mode", map[bool]string{false: "dvd", true: "ps3"}[ps3])
@@ -638,6 +650,9 @@ func runIso(env *Env) error {
 		}
 		env.Count("result", "built")
 		rootAbs := "/" + rootName
+		if noName {
+			rootAbs = ""
+		}
 		ts := md5.Sum([]byte(sb.String()))
 		dumpName = hex.EncodeToString(ts[:])
 		obs := isoObs(v, rootAbs, ps3)
@@ -684,8 +699,8 @@ func runIso(env *Env) error {
 			o.Close()
 		}
 		v.Close()
-		if len(later) < 12 && !sh.huge && (i%4 == 1 || oddTimes(tree)) {
-			later = append(later, deferred{id, prefix + rootName, obs, rootAbs, fsys, ps3})
+		if len(later) < 12 && !sh.huge && (i%4 == 1 || oddTimes(tree) || noName) {
+			later = append(later, deferred{id, openPath, obs, rootAbs, fsys, ps3})
 			top = "" // kept until the end of the run (removed with base)
 		}
 		if i < 3 {
